@@ -57,6 +57,12 @@ package strategy
 //@                               && infos[a].Nodename in result0 && !(infos[b].Nodename in result0)
 //@                               && infos[b].Count + infos[b].Capacity >= need ==> infos[a].Count >= infos[b].Count
 //@   ensures[C02.fill-short] len(infos) < (limit == 0 ? len(infos) : limit) ==> result0 == nil && err != nil
+//@   # refused (with enough candidates) only when fewer than limit' nodes are eligible: deployMap then holds exactly the
+//@   # eligible nodes (names are distinct, so its size is their number) and is smaller than limit'
+//@   ensures[C02.fill-refuse] result0 == nil && len(infos) >= 1 && len(infos) >= (limit == 0 ? len(infos) : limit) ==>
+//@                               card(deployMap) < (limit == 0 ? len(infos) : limit)
+//@                               && (forall k :: 0 <= k && k < len(infos) ==> ((infos[k].Count + infos[k].Capacity >= need) <==> (infos[k].Nodename in deployMap)))
+//@   ensures[C02.fill-plan-iff] (result0 == nil) <==> (err != nil && err != types.ErrAlreadyFilled)
 //@   loop 1:
 //@     invariant forall a, b :: 0 <= a && a < b && b < len(infos) ==> infos[a].Nodename != infos[b].Nodename
 //@     invariant forall k :: 0 <= k && k < len(infos) ==> infos[k].Capacity >= 0 && 0 <= infos[k].Count && infos[k].Count <= 4294967296
@@ -67,7 +73,8 @@ package strategy
 //@     invariant fresh(deployMap) && deployMap != nil && err == nil
 //@     invariant 0 <= toDeploy && toDeploy <= (rangeindex + 1) * 4294967296
 //@     invariant[C03] forall a, b :: 0 <= a && a < b && b < len(infos) ==> infos[a].Count >= infos[b].Count
-//@     invariant[C03] forall k :: 0 <= k && k <= rangeindex && infos[k].Count + infos[k].Capacity >= need ==> infos[k].Nodename in deployMap
+//@     invariant[C03,C02] forall k :: 0 <= k && k <= rangeindex && infos[k].Count + infos[k].Capacity >= need ==> infos[k].Nodename in deployMap
+//@     invariant[C02] forall k :: 0 <= k && k <= rangeindex && infos[k].Nodename in deployMap ==> infos[k].Count + infos[k].Capacity >= need
 
 //@ func DrainedPlan
 //@   requires validInfos(infos, need, 0)
@@ -182,3 +189,13 @@ package strategy
 //@     invariant forall n string :: n in deployMap ==> exists j :: 0 <= j && j < len(infos) && infos[j].Nodename == n
 //@                       && 1 <= deployMap[n] && deployMap[n] <= infos[j].Capacity && deployMap[n] <= i
 //@     decreases need - i
+
+//@ # ---------- the ordering criteria themselves (function against spec) ----------
+//@ func (infoHeap) Less
+//@   requires 0 <= i && i < len(h.infos) && 0 <= j && j < len(h.infos)
+//@   ensures[C03.auto-order] result == (h.infos[i].Count < h.infos[j].Count
+//@                              || (h.infos[i].Count == h.infos[j].Count && h.infos[i].Capacity > h.infos[j].Capacity))
+//@ func (infoHeapForGlobalStrategy) Less
+//@   requires 0 <= i && i < len(r) && 0 <= j && j < len(r)
+//@   # GLOBAL orders nodes by the usage they would have after one more instance
+//@   ensures[C03.global-order] result == (r[i].Usage + r[i].Rate < r[j].Usage + r[j].Rate)
